@@ -24,4 +24,5 @@ for name in sorted(mat, key=key):
         res = "**missed** (expected, see the text above): " + (meta.get("note") or "")[:160].replace("|", "/") + "…"
     else:
         res = f"**{r['result']}** {det[:80]}"
-    print(f"| {name} | {summ} *(needs: {needs})* | {res} |")
+    mark = {"9be0dcc": " †a", "b5542ff": " †b"}.get(r.get("measured_at", "final"), "")
+    print(f"| {name} | {summ} *(needs: {needs})* | {res}{mark} |")
